@@ -187,6 +187,28 @@ Proof.
   rewrite (N.mod_small (t * 4294967296)), (N.mod_small q) by lia. lia.
 Qed.
 
+(** whatever the counter is - including after it passed 2^32 - the id's upper
+    half is the term, so ids handed out in different terms never coincide *)
+Lemma mk_id_names_term t q : t < 2^32 -> mk_id t q / 2^32 = t.
+Proof.
+  unfold mk_id. intros H. change (2^64) with 18446744073709551616. change (2^32) with 4294967296 in *.
+  rewrite (N.mod_small (t * 4294967296)) by lia.
+  pose proof (N.mod_upper_bound q 4294967296 ltac:(lia)) as Hq.
+  rewrite N.div_add_l by lia. rewrite (N.div_small (q mod 4294967296)) by exact Hq. lia.
+Qed.
+
+Lemma mk_id_terms_differ t1 q1 t2 q2 :
+  t1 < 2^32 -> t2 < 2^32 -> t1 <> t2 -> mk_id t1 q1 <> mk_id t2 q2.
+Proof.
+  intros H1 H2 Hne E. apply Hne.
+  rewrite <- (mk_id_names_term t1 q1 H1), <- (mk_id_names_term t2 q2 H2), E. reflexivity.
+Qed.
+
+Lemma next_id_terms_differ (t1 t2 : N) (p1 p2 : pipe N) :
+  t1 < 2^32 -> t2 < 2^32 -> t1 <> t2 ->
+  fst (next_id t1 p1) <> fst (next_id t2 p2).
+Proof. intros H1 H2 Hne. unfold next_id. cbn [fst]. now apply mk_id_terms_differ. Qed.
+
 (** the association-list key is injective on pairs of uint64 *)
 Lemma pkey_inj r1 i1 r2 i2 : i1 < 2^64 -> i2 < 2^64 -> pkey r1 i1 = pkey r2 i2 -> r1 = r2 /\ i1 = i2.
 Proof. unfold pkey. change (2^64) with 18446744073709551616. intros H1 H2 H. lia. Qed.
